@@ -1174,7 +1174,19 @@ class Extractor:
                 'sha256': hashlib.sha256(self.tu.src[fa:fb]).hexdigest()[:16]}
 
 
+NOCHECK = ('\n#pragma CPROVER check push\n' + ''.join('#pragma CPROVER check disable "%s"\n' % c for c in (
+    'bounds', 'pointer', 'signed-overflow', 'unsigned-overflow', 'conversion', 'undefined-shift', 'pointer-overflow',
+    'pointer-primitive', 'div-by-zero')), '\n#pragma CPROVER check pop\n')
+
+
 def render_marker(kind, text):
+    # ghost statements, assertions and cut points are ours: CBMC's automatic checks stay on in the repository's own text only
+    if kind in ('ASSERT', 'GHOST', 'CUT'):
+        return NOCHECK[0] + render_marker0(kind, text) + NOCHECK[1]
+    return render_marker0(kind, text)
+
+
+def render_marker0(kind, text):
     if kind == 'ASSERT':
         m = re.match(r'\s*("(?:[^"\\]|\\.)*")\s*,(.*)$', text, re.S)
         if not m:
